@@ -201,7 +201,7 @@ class AdjEnv:
         """defining equations of MS / MD / INC for the sequence C = C0 ++ [l1, ..., ln] (n >= 0 trailing units)
         -> (ground facts, schemas over x)"""
         g = [self.MS(EMPTY()) == EMPTY(), self.MD(EMPTY()) == EMPTY()]
-        sch = [Schema("incident-nil", (Ref,), lambda x: self.INC(EMPTY(), x) == EMPTY())]
+        sch = [Schema("incident-nil", (Ref,), lambda x: self.INC(EMPTY(), x) == EMPTY(), filter=True)]
         cur = C
         for _i in range(4):
             sp = self._snoc(cur)
